@@ -14,6 +14,9 @@
 #include "json.hpp"
 #include <algorithm>
 #include <chrono>
+#include <fcntl.h>
+#include <sys/mman.h>
+#include <unistd.h>
 #include <functional>
 #include <map>
 #include <rapidcheck.h>
@@ -162,7 +165,7 @@ template <class Case> int main_(int argc, char **argv, Prop<Case> &P)
 {
         uint64_t seed = 1;
         int cases = 100, size = 100;
-        std::string out, replay;
+        std::string out, replay, crashfile;
         Ctx ctx;
         for (int i = 1; i < argc; i++) {
                 std::string a = argv[i];
@@ -172,6 +175,7 @@ template <class Case> int main_(int argc, char **argv, Prop<Case> &P)
                 else if (a == "--size") size = atoi(next().c_str());
                 else if (a == "--out") out = next();
                 else if (a == "--replay") replay = next();
+                else if (a == "--crashfile") crashfile = next();
                 else if (a == "--exclude") {
                         std::string l = next();
                         size_t p = 0;
@@ -215,6 +219,18 @@ template <class Case> int main_(int argc, char **argv, Prop<Case> &P)
                 return ok ? 0 : 1;
         }
 
+        // crash capture: the case about to be executed is mirrored into a shared file, so that a worker that dies
+        // (memory corruption outside the guarded regions, stack smash, ...) still leaves a replayable case behind
+        char *crashbuf = nullptr;
+        const size_t CRASHMAX = 1 << 20;
+        if (!crashfile.empty()) {
+                int fd = open(crashfile.c_str(), O_RDWR | O_CREAT | O_TRUNC, 0644);
+                if (fd >= 0 && ftruncate(fd, CRASHMAX) == 0) {
+                        crashbuf = (char *) mmap(nullptr, CRASHMAX, PROT_READ | PROT_WRITE, MAP_SHARED, fd, 0);
+                        if (crashbuf == MAP_FAILED) crashbuf = nullptr;
+                }
+                if (fd >= 0) close(fd);
+        }
         uint64_t evals = 0;
         std::set<uint64_t> nt;
         std::vector<std::string> samples;
@@ -232,6 +248,10 @@ template <class Case> int main_(int argc, char **argv, Prop<Case> &P)
         auto result = rc::detail::checkTestable(
                 [&]() {
                         Case c = P.gen(ctx);
+                        if (crashbuf) {
+                                std::string js = P.to_json(c).dump();
+                                if (js.size() + 1 < CRASHMAX) { crashbuf[0] = 0; memcpy(crashbuf + 1, js.data() + 1, js.size() - 1); crashbuf[js.size()] = 0; crashbuf[0] = js[0]; }
+                        }
                         ctx.nontrivial = false;
                         ctx.nt_key.clear();
                         ctx.message.clear();
@@ -283,6 +303,7 @@ template <class Case> int main_(int argc, char **argv, Prop<Case> &P)
                 r.set("failure", f);
         }
         if (P.finish) P.finish(ctx, r);
+        if (crashbuf) crashbuf[0] = 0; // finished normally: nothing pending
         if (!out.empty()) {
                 FILE *f = fopen(out.c_str(), "w");
                 if (f) { fputs(r.dump().c_str(), f); fputc('\n', f); fclose(f); }
